@@ -429,8 +429,9 @@ func c17Judge(c *core.Ctx, f string, a, b c17Operand, binary bool, res core.Res,
 		// statement does not rule out, as long as it is the same float64 value.
 		wf, _ := exact.Float64()
 		gf, err := strconv.ParseFloat(res.Out, 64)
-		if !exact.IsInt() && err == nil && gf == wf && strings.ContainsAny(res.Out, "eE") {
-			c.Obs("exact_value_in_exponent_notation", 1)
+		if !exact.IsInt() && err == nil && gf == wf {
+			// how a number that is not whole is spelled (1.2345675e+06 or 1234567.5) is not stated: the same float64 value
+			c.Obs("exact_value_in_another_spelling", 1)
 			return
 		}
 		c.Violate("wrong-value|"+f, "the filter did not compute the exact arithmetic result (or printed a whole number with a fractional part)", wit(want))
@@ -526,7 +527,7 @@ func c17Chains(c *core.Ctx, e *liquid.Engine) {
 		c.Eval(1)
 		c.Obs("chain_cases", 1)
 		c.Distinct("chain", src)
-		if gf, err := strconv.ParseFloat(res.Out, 64); res.OK() && err == nil && !cur.IsInt() && strings.ContainsAny(res.Out, "eE") {
+		if gf, err := strconv.ParseFloat(res.Out, 64); res.OK() && err == nil && !cur.IsInt() {
 			if wf, _ := cur.Float64(); wf == gf {
 				continue
 			}
